@@ -131,6 +131,7 @@ struct task {
 // what the outermost storage saw (thread-local: in ctl runs a thread may be paused inside alloc)
 inline thread_local void *tl_top_ptr = nullptr;
 inline thread_local std::size_t tl_top_sz = 0;
+inline thread_local std::size_t tl_top_dsz = 0;   // size the promise's operator delete handed to the storage
 
 // logs the calls that reach the base policy
 template <typename B>
@@ -158,7 +159,10 @@ struct top : S {
         tl_top_sz = sz;
         return p;
     }
-    static void dealloc(void *p, std::size_t sz) { S::dealloc(p, sz); }
+    static void dealloc(void *p, std::size_t sz) {
+        tl_top_dsz = sz;
+        S::dealloc(p, sz);
+    }
 };
 
 // coroutines with differently sized frames: N bytes of locals that live across the suspension
@@ -173,19 +177,61 @@ cocls::with_allocator<A, task> sized_coro(A &, long *canary_ok, unsigned char se
     *canary_ok = ok;
 }
 
-constexpr int n_classes = 9;
+// the same body as a non-static member function and as a lambda: for these the promise's
+// `operator new(sz, This&, Allocator&, ...)` overload (with_allocator.h:21-24) is selected instead of the first one.
+// Extra parameters make the frame sizes differ from the free-function classes.
+struct host {
+    long tag = 0;
+    template <typename A, std::size_t N>
+    cocls::with_allocator<A, task> member_coro(A &, long *canary_ok, unsigned char seed, long extra) {
+        volatile unsigned char buf[N];
+        for (std::size_t i = 0; i < N; i++) buf[i] = static_cast<unsigned char>(seed + 7 * i + extra);
+        co_await std::suspend_always{};
+        long ok = 1;
+        for (std::size_t i = 0; i < N; i++)
+            if (buf[i] != static_cast<unsigned char>(seed + 7 * i + extra)) ok = 0;
+        *canary_ok = ok;
+    }
+};
+inline host g_host;
+
+template <typename A, std::size_t N>
+std::coroutine_handle<> lambda_coro(A &a, long *canary_ok, unsigned char seed) {
+    static auto lam = [](A &, long *cok, unsigned char sd, long e1, long e2, long e3) -> cocls::with_allocator<A, task> {
+        volatile unsigned char buf[N];
+        for (std::size_t i = 0; i < N; i++) buf[i] = static_cast<unsigned char>(sd + 3 * i + e1 + e2 + e3);
+        co_await std::suspend_always{};
+        long ok = 1;
+        for (std::size_t i = 0; i < N; i++)
+            if (buf[i] != static_cast<unsigned char>(sd + 3 * i + e1 + e2 + e3)) ok = 0;
+        *cok = ok;
+    };
+    return lam(a, canary_ok, seed, 1, 2, 3).h;
+}
+
+constexpr int n_sizes = 9;
+constexpr int n_classes = 3 * n_sizes;   // class k: kind k / 9 (0 free function, 1 member function, 2 lambda), size index k % 9
+template <typename A, std::size_t N>
+std::coroutine_handle<> start_kind(A &a, int kind, long *ok, unsigned char seed) {
+    switch (kind) {
+        case 0: return sized_coro<A, N>(a, ok, seed).h;
+        case 1: return g_host.member_coro<A, N>(a, ok, seed, 5).h;
+        default: return lambda_coro<A, N>(a, ok, seed);
+    }
+}
 template <typename A>
 std::coroutine_handle<> start(A &a, int k, long *ok, unsigned char seed) {
-    switch (k) {
-        case 0: return sized_coro<A, 1>(a, ok, seed).h;
-        case 1: return sized_coro<A, 9>(a, ok, seed).h;
-        case 2: return sized_coro<A, 24>(a, ok, seed).h;
-        case 3: return sized_coro<A, 40>(a, ok, seed).h;
-        case 4: return sized_coro<A, 100>(a, ok, seed).h;
-        case 5: return sized_coro<A, 200>(a, ok, seed).h;
-        case 6: return sized_coro<A, 500>(a, ok, seed).h;
-        case 7: return sized_coro<A, 1000>(a, ok, seed).h;
-        default: return sized_coro<A, 3000>(a, ok, seed).h;
+    int kind = k / n_sizes;
+    switch (k % n_sizes) {
+        case 0: return start_kind<A, 1>(a, kind, ok, seed);
+        case 1: return start_kind<A, 9>(a, kind, ok, seed);
+        case 2: return start_kind<A, 24>(a, kind, ok, seed);
+        case 3: return start_kind<A, 40>(a, kind, ok, seed);
+        case 4: return start_kind<A, 100>(a, kind, ok, seed);
+        case 5: return start_kind<A, 200>(a, kind, ok, seed);
+        case 6: return start_kind<A, 500>(a, kind, ok, seed);
+        case 7: return start_kind<A, 1000>(a, kind, ok, seed);
+        default: return start_kind<A, 3000>(a, kind, ok, seed);
     }
 }
 
